@@ -492,6 +492,23 @@ func (m *Machine) intrinsic(name string, fn *ssa.Function, args []Value) (Value,
 			return nil, true
 		case "Counted":
 			return BV(64, uint64(m.counters[m.litString(args[0])])), true
+		case "ExpectExit": // like ExpectPanic, but only a process exit (log.Fatal, os.Exit) is an ordinary outcome
+			m.expectExit++
+			exited := false
+			func() {
+				defer func() {
+					if r := recover(); r != nil {
+						if gp, ok := r.(goPanic); ok && strings.HasPrefix(gp.msg, "process exit") {
+							exited = true
+							return
+						}
+						panic(r)
+					}
+				}()
+				m.callValue(args[0], &ssa.CallCommon{}, nil)
+			}()
+			m.expectExit--
+			return Bool(exited), true
 		case "ExpectPanic":
 			m.expectPanic++
 			panicked := false
